@@ -1331,7 +1331,7 @@ def main():
         scale = float(os.environ.get("VERIF_C05_SCALE", "1"))      # development knob (mutation runs): fewer generated programs
     except ValueError:
         scale = 1.0
-    nM = max(4, int((36 if quick else 400) * scale))
+    nM = max(4, int((36 if quick else 340) * scale))
     for i in range(nM):
         g = GenM(rng, featM)
         src, sx = g.program()
@@ -1349,7 +1349,7 @@ def main():
             jobs.append(Job("M", "stream=M", src, o, [[t] for t in tapes], sx=sx(o), risky=risky if g.planted else None))
     # ---- 4. random programs over all types, roles, exits
     featA = {}
-    nA = max(6, int((60 if quick else 900) * scale))
+    nA = max(6, int((60 if quick else 760) * scale))
     for i in range(nA):
         g = GenA(rng, featA)
         src = g.program()
